@@ -70,6 +70,15 @@ FLAVOURS = {
         c=BASE + ["-DNDEBUG", "-fsanitize=fuzzer-no-link,address," + UBSAN_C, "-fno-sanitize-recover=all"],
         cxx=BASE + ["-fsanitize=fuzzer-no-link,address," + UBSAN_CXX, "-fno-sanitize-recover=all"],
         ld=["-fsanitize=fuzzer,address," + UBSAN_CXX]),
+    # the library and the harness as gcc / g++ -O2 build them (the project's own compiler): what gcc's optimiser makes of the
+    # sources differs from clang's in places that matter (DESIGN 9.2: dead stores before free(), operands sharing a register)
+    "gcc-asan": dict(
+        cc="gcc", cxx_compiler="g++",
+        c=["-g", "-O2", "-fno-omit-frame-pointer", "-fPIC", "-DNDEBUG", "-fsanitize=address,bounds,null,unreachable,vla-bound",
+           "-fno-sanitize-recover=all"],
+        cxx=["-g", "-O2", "-fno-omit-frame-pointer", "-fPIC", "-fsanitize=address,bounds,null,unreachable,return,vla-bound",
+             "-fno-sanitize-recover=all"],
+        ld=["-fsanitize=address,bounds,null,unreachable,return,vla-bound"]),
     # free-running real threads under ThreadSanitizer: data races the controlled scheduler cannot see because a plain
     # (non-atomic, unlocked) access offers it no decision point (DESIGN 4.4 / 9.5)
     "tsan": dict(
@@ -230,7 +239,7 @@ def build_flavour(name, log=sys.stderr):
         if os.path.exists(obj):
             _touch(obj)
         else:
-            jobs.append(([CC] + flags + inc + ["-c", src], obj))
+            jobs.append(([fl.get("cc", CC)] + flags + inc + ["-c", src], obj))
     t0 = time.time()
     if jobs:
         with cf.ThreadPoolExecutor(JOBS) as ex:
@@ -342,7 +351,7 @@ def build_target(t, log=sys.stderr):
         extra.append(build_gcc_object(rel, log))
     for rel in t.get("gcc_harness_objects", []):
         extra.append(build_gcc_harness_object(rel, log))
-    flags = [CXX, "-std=gnu++17", "-w"] + fl["cxx"] + t.get("cxxflags", []) + DEFINES + includes() + \
+    flags = [fl.get("cxx_compiler", CXX), "-std=gnu++17", "-w"] + fl["cxx"] + t.get("cxxflags", []) + DEFINES + includes() + \
             ["-I" + os.path.join(ROOT, "engine"), "-I" + REPO]
     ld = list(fl["ld"])
     if t.get("wrap"):
